@@ -5,7 +5,7 @@ import Driver.Parse
 namespace Driver.ValidFam
 open MagpyVerif.Valid MagpyVerif.Gen Driver
 
-/-- value encoding (prefix): N | T | F | I <int> | BT | BF | C | O | S:<text> | L <n> v… | A <ndim> <shape…> <n> <data…> -/
+/-- value encoding (prefix): N | T | F | I <int> | FL <int> | NAN | BT | BF | C | O | S:<text> | L <n> v… | A <ndim> <shape…> <n> <data…> -/
 partial def value : P PyVal := do
   let t ← tok
   match t with
@@ -13,6 +13,12 @@ partial def value : P PyVal := do
   | "T" => pure (.bool true)
   | "F" => pure (.bool false)
   | "I" => do pure (.num (← int))
+  | "FL" => do pure (.flt (← int))
+  | "NAN" => pure .nanf
+  | "R" => do
+      let n ← nat
+      let f ← nat
+      pure (.rot n (f != 0))
   | "BT" => pure (.npbool true)
   | "BF" => pure (.npbool false)
   | "C" => pure .cplx
@@ -42,6 +48,7 @@ def showStored : Stored → String
   | .none => "ok none"
   | .scalar x => s!"ok scalar {showF x}"
   | .text s => s!"ok text {s}"
+  | .quats n => s!"ok quats {n}"
   | .array a =>
     let sh := " ".intercalate (a.shape.map toString)
     let d := " ".intercalate (a.data.map showF)
@@ -74,6 +81,16 @@ def run : P String := do
   | "cylseg" => do pure (showRes (checkCylSeg (← value)))
   | "pixel" => do pure (showRes (checkPixel (← value)))
   | "handedness" => do pure (showRes (checkHandedness (← value)))
+  | "start" => do pure (showRes (checkStart (← value)))
+  | "degrees" => do pure (showRes (checkDegrees (← value)))
+  | "field" => do pure (showRes (checkField (← value)))
+  | "output" => do pure (showRes (checkOutput (← value)))
+  | "anchor" => do pure (showRes (checkAnchor (← value)))
+  | "angle" => do pure (showRes (checkAngle (← value)))
+  | "axis" => do pure (showRes (checkAxis (← value)))
+  | "orientation" => do
+      let f ← flag
+      pure (showRes (checkOrientation f (← value)))
   | "triangle" => do pure (showRes (checkVector triangleCfg (← value)))
   | "tetrahedron" => do pure (showRes (checkVector tetrahedronCfg (← value)))
   | "position" => do pure (showRes (checkVector positionCfg (← value)))
